@@ -59,3 +59,82 @@ def eval_formula(F, true):
                 raise ValueError("operator %r" % (con[-2],))
         return True
     return all(eval_clause(cl, true) for cl in F)
+
+
+class Evaluator:
+    """Repeated evaluation of one (large) formula.  Clauses -- and OPB constraints that are clauses -- are grouped by
+    their variable set: an assignment falsifies, on a given variable set, exactly the clause that negates it, so one
+    evaluation costs a set lookup per distinct variable set instead of a pass over every clause.  Other OPB
+    constraints are evaluated as they stand."""
+
+    def __init__(self, F):
+        self.groups = {}
+        self.other = []
+        self.clauses = 0
+        if hasattr(F, "_constraints"):
+            for con in F:
+                if con[-2] == ">=" and con[-1] == 1 and all(c == 1 for c, _ in con[:-2]):
+                    self._clause([l for _, l in con[:-2]])
+                else:
+                    if con[-2] not in (">=", "=="):
+                        raise ValueError("operator %r" % (con[-2],))
+                    self.other.append(con)
+        else:
+            for cl in F:
+                self._clause(cl)
+
+    def _clause(self, cl):
+        s = set(cl)
+        if any(-l in s for l in s):
+            return                                  # contains x and -x: always true
+        lits = sorted(s, key=abs)
+        self.groups.setdefault(tuple(abs(l) for l in lits), set()).add(tuple(l > 0 for l in lits))
+        self.clauses += 1
+
+    def value(self, true):
+        for vs, pats in self.groups.items():
+            if tuple(v not in true for v in vs) in pats:
+                return False
+        for con in self.other:
+            s = sum(c for c, l in con[:-2] if (l > 0) == (abs(l) in true))
+            if not (s >= con[-1] if con[-2] == ">=" else s == con[-1]):
+                return False
+        return True
+
+
+class _NotClauses(Exception):
+    pass
+
+
+def eval_many(F, assignments):
+    """Evaluate a CNF (or the clause-shaped constraints of an OPB) on several assignments in a single pass over
+    the clauses: variable v carries one bit per assignment.  Returns the list of truth values."""
+    K = len(assignments)
+    full = (1 << K) - 1
+    mask = {}
+    for j, t in enumerate(assignments):
+        for v in t:
+            mask[v] = mask.get(v, 0) | (1 << j)
+    alive = full
+    get = mask.get
+    if hasattr(F, "_constraints"):
+        def clauses():
+            for con in F:
+                if con[-2] == ">=" and con[-1] == 1 and all(c == 1 for c, _ in con[:-2]):
+                    yield [l for _, l in con[:-2]]
+                else:
+                    raise _NotClauses
+        try:
+            source = list(clauses())
+        except _NotClauses:
+            return [eval_formula(F, t) for t in assignments]
+    else:
+        source = F
+    for cl in source:
+        s = 0
+        for l in cl:
+            s |= get(l, 0) if l > 0 else full ^ get(-l, 0)
+        alive &= s
+        if not alive:
+            break
+    return [bool((alive >> j) & 1) for j in range(K)]
